@@ -9,6 +9,7 @@ package harness
 // (the EIP-712 chain's "exactly one extension option").
 
 import (
+	"strings"
 	"context"
 	"math/big"
 
@@ -99,7 +100,8 @@ func (f *c19Fix) runSigned(t c19Tx) (urls []string, code uint32, ok bool) {
 	}
 	fees := sdk.NewCoins(sdk.NewInt64Coin("acanto", 1_000_000))
 	gas := uint64(2_000_000)
-	if first == "eth" {
+	ethStyle := first == "eth" || t.EthStyle
+	if ethStyle {
 		fee, g := big.NewInt(0), uint64(0)
 		for _, m := range msgs {
 			if em, isEth := m.(*evmtypes.MsgEthereumTx); isEth {
@@ -118,7 +120,7 @@ func (f *c19Fix) runSigned(t c19Tx) (urls []string, code uint32, ok bool) {
 	pub := f.spriv.PubKey()
 	chainID := ChainID // the chain id of app.Setup; NewContext(true) carries an empty header
 	var web3 *codectypes.Any
-	if first == "web3" {
+	if first == "web3" && !ethStyle {
 		if len(msgs) == 0 {
 			return nil, 0, false
 		}
@@ -156,7 +158,11 @@ func (f *c19Fix) runSigned(t c19Tx) (urls []string, code uint32, ok bool) {
 	if len(opts) > 0 {
 		b.(authtx.ExtensionOptionsTxBuilder).SetExtensionOptions(opts...)
 	}
-	switch first {
+	sigKind := first
+	if ethStyle {
+		sigKind = "eth"
+	}
+	switch sigKind {
 	case "eth": // no Cosmos signature on the Ethereum route
 	case "web3":
 		if err := b.SetSignatures(signing.SignatureV2{PubKey: pub, Data: &signing.SingleSignatureData{SignMode: signing.SignMode_SIGN_MODE_LEGACY_AMINO_JSON}, Sequence: seq}); err != nil {
@@ -221,6 +227,11 @@ func (f *c19Fix) c19SignedTxs(e *Env) []c19Tx {
 		add("eth eth,send", []string{"eth"}, eth, send)
 		add("eth send", []string{"eth"}, send)
 		add("eth exec[eth]", []string{"eth"}, c19Exec(eth))
+		// a correctly signed, funded Ethereum message dressed the Ethereum way under every other option list
+		for _, o := range [][]string{{}, {"dyn"}, {"web3"}, {"dyn", "eth"}, {"web3", "eth"}, {"dyn", "web3"}, {"msgasopt"}} {
+			out = append(out, c19Tx{Opts: o, Msgs: []c19Node{eth}, Label: "sig ethstyle " + strings.Join(o, "+") + " eth", EthStyle: true})
+			out = append(out, c19Tx{Opts: o, Msgs: []c19Node{eth, eth}, Label: "sig ethstyle " + strings.Join(o, "+") + " eth,eth", EthStyle: true})
+		}
 	}
 	// random harmless forests and boundary shapes, signed, on the plain route
 	sendURL := sdk.MsgTypeURL(f.msg(send))
